@@ -316,7 +316,8 @@ def r12_3(chk):
             tr = [s for s in a2.body if isinstance(s, ast.Try)]
             last = unparse(a2.body[-1]) if a2.body else ""
             else_ = [unparse(s) for s in a2.orelse]
-            ok = b1 == ["cache.append(line)"] and unparse(a2.test) == "line.startswith('2 ')" and unparse(a2.body[0]) == "cache.append(line)" and len(tr) == 1 \
+            escapes = [n for n in ast.walk(a2) if isinstance(n, (ast.Continue, ast.Break, ast.Return))]
+            ok = not escapes and b1 == ["cache.append(line)"] and unparse(a2.test) == "line.startswith('2 ')" and unparse(a2.body[0]) == "cache.append(line)" and len(tr) == 1 \
                 and unparse(tr[0].body[0]) == "yield cls('\\n'.join(cache))" and unparse(tr[0].handlers[0].type) == "ValueError" \
                 and last == "cache = []" and else_ == ["cache = [line]"]
             what = "line 1 appended; line 2 appended then parsed (errors handled) and the cache always reset; any other line starts a new entry as its name" if ok else \
